@@ -11,10 +11,10 @@
    help text); argparse's HelpFormatter layout (wrapping, columns, usage line) is not modelled.
 
    NOT written here (regenerated from the source into Gen/FactsHelp.v and Gen/FactsConflicts.v): the skip test of
-   DataclassWrapper.__init__, the help/token decision chain, the token, what the formatter's base classes add, whether
+   DataclassWrapper.__init__, the help/token decision chain, the token, the test that lets an outside default win, what the formatter's base classes add, whether
    print_help sets the parser up / applies the constructor's config files first, the exit status and stream of the
    help action, and whether option_strings de-duplicates through an order-preserving container. *)
-From SPV Require Export Base.Str Model.OptStr.
+From SPV Require Export Base.Str Model.OptStr Model.BoolFlag.
 
 (* one dataclass field as the help machinery sees it *)
 Record hfield := mkhf {
@@ -22,7 +22,8 @@ Record hfield := mkhf {
   hf_init : bool;                (* dataclasses.field(init=...) *)
   hf_cmd : option bool;          (* field.metadata["cmd"]; None = the key is absent *)
   hf_help : string;              (* help= / metadata["help"]; "" = none *)
-  hf_default : option string     (* definition default as `%(default)s` prints it; None = None / no default *)
+  hf_default : option string;    (* definition default as `%(default)s` prints it; None = None / no default *)
+  hf_bool : bool                 (* a plain `bool` field: its action is BooleanOptionalAction, which adds negative spellings *)
 }.
 (* one DataclassWrapper (single destination) *)
 Record hwrap := mkhw {
@@ -41,21 +42,20 @@ Record entry := mkentry {
 }.
 Record group := mkgroup { g_title : string; g_desc : string; g_entries : list entry }.
 
-Definition dmap := list (string * string).      (* destination -> default installed from outside the definition *)
-Fixpoint dlookup (k : string) (m : dmap) : option string :=
+(* a default installed from outside the definition: how `%(default)s` prints it, and whether the value is falsy
+   (0, 0.0, False, "", []); None is never installed (C06) *)
+Record dval := mkdv { dv_text : string; dv_falsy : bool }.
+Definition dmap := list (string * dval).         (* destination -> default installed from outside the definition *)
+Fixpoint dlookup (k : string) (m : dmap) : option dval :=
   match m with [] => None | (k', v) :: r => if String.eqb k k' then Some v else dlookup k r end.
 
 Definition hdest (f : hfield) : string := dest (hf_fw f).
 Definition set_fw (f : hfield) (w : fw) : hfield :=
-  {| hf_fw := w; hf_init := hf_init f; hf_cmd := hf_cmd f; hf_help := hf_help f; hf_default := hf_default f |}.
+  {| hf_fw := w; hf_init := hf_init f; hf_cmd := hf_cmd f; hf_help := hf_help f; hf_default := hf_default f;
+     hf_bool := hf_bool f |}.
 
 (* DataclassWrapper.title: qualname + " ['dest']" *)
 Definition title (w : hwrap) : string := hw_qual w ++ " ['" ++ join_dot (hw_path w) ++ "']".
-
-(* the default an action is created with: a default installed from outside (default instance, set_defaults, config
-   file - layered by C06) overrides the definition's *)
-Definition effective (D : dmap) (f : hfield) : option string :=
-  match dlookup (hdest f) D with Some v => Some v | None => hf_default f end.
 
 (* str.replace(tok, "") *)
 Fixpoint remove_sub_fuel (n : nat) (tok s : string) : string :=
@@ -83,8 +83,19 @@ Section WithFacts.
   Variable arg_help : string -> option string -> option string. (* Gen: the `help=` keyword chosen by get_arg_options *)
   Variable token : string.                                     (* Gen: TEMPORARY_TOKEN *)
   Variable adds_default strips_token : bool.                   (* Gen: formatter bases / _get_help_string *)
+  Variable ext_wins : bool -> bool.                            (* Gen: the test on self._default at the head of FieldWrapper.default,
+                                                                  as a function of the (non-None) value's falsiness *)
+  Variable neg_prefix : string.                                (* Gen (FactsBool): DEFAULT_NEGATIVE_PREFIX *)
   Variable preserved : bool.                                   (* Gen (FactsConflicts): order-preserving de-duplication *)
   Variable perm : list string -> list string.                  (* iteration order of a set under this run's hash seed *)
+
+  (* FieldWrapper.default: a default installed from outside (default instance, set_defaults, config file - layered by
+     C06) is used when it passes that test, else the definition's *)
+  Definition effective (D : dmap) (f : hfield) : option string :=
+    match dlookup (hdest f) D with
+    | Some v => if ext_wins (dv_falsy v) then Some (dv_text v) else hf_default f
+    | None => hf_default f
+    end.
 
   Definition exposedb (f : hfield) : bool :=
     negb (skip (hf_init f) (match hf_cmd f with Some b => b | None => cmd_default end)).
@@ -94,10 +105,17 @@ Section WithFacts.
     if positional f then [dest f]
     else sort_by String.length (if preserved then dedupe (raw_options c f) [] else perm (dedupe (raw_options c f) [])).
 
+  (* the action's option strings: for a bool field BooleanOptionalAction.__init__ (Model/BoolFlag.v, C12) appends the
+     negative spelling of every positive one *)
+  Definition negs_of (pos : list string) : list string :=
+    match neg_strings neg_prefix pos [] with Some n => n | None => [] end.
+  Definition shown_opts (c : cfg) (f : hfield) : list string :=
+    let pos := ordered_opts c (hf_fw f) in if hf_bool f then (pos ++ negs_of pos)%list else pos.
+
   (* argparse.HelpFormatter._format_action + _expand_help on the action built by add_arguments *)
   Definition entry_of (c : cfg) (D : dmap) (f : hfield) : entry :=
     let d := effective D f in
-    let opts := ordered_opts c (hf_fw f) in
+    let opts := shown_opts c f in
     match arg_help (hf_help f) d with
     | None => mkentry (hdest f) opts None ""
     | Some h =>
